@@ -463,7 +463,7 @@ pub fn c18_disjoint_unchecked<const N: usize, const J: usize>() {
 
 harnesses! {
     c15_zst: [1] [2] [3];
-    c13_disjoint: [0, 0] [2, 0] [0, 2] [1, 1] [2, 1] [1, 2] [2, 2] [3, 2] [2, 3] [3, 3];
+    c13_disjoint: [0, 0] [2, 0] [0, 2] [1, 1] [2, 1] [1, 2] [2, 2] [3, 2] [2, 3] [3, 3] [2, 9];
     c13_disjoint_tok: [1] [2] [3];
     c15_clone: [0] [1] [2] [3];
     c15_set_clone: [0] [1] [2] [3];
@@ -477,7 +477,7 @@ harnesses! {
     c18_insert_unchecked: [1] [2] [3] [4];
     c18_disjoint_unchecked: [2, 0] [1, 1] [2, 2] [3, 2] [2, 3] [3, 3];
     @deep
-    c13_disjoint: [4, 3] [3, 4] [4, 4] [5, 2] [2, 9] [2, 17] [2, 33];
+    c13_disjoint: [4, 3] [3, 4] [4, 4] [5, 2] [2, 17];
     c13_disjoint_tok: [4] [5];
     c15_clone: [4] [5];
     c15_set_clone: [4] [5];
